@@ -6,7 +6,7 @@
 #include <ctype.h>
 
 static char *RUN[12];
-static const char *FR[40]; static int NFR;
+static const char *FR[48]; static int NFR;
 static int NFRAG;                 /* fragments per side */
 static uint64_t NSTR;
 
@@ -14,7 +14,7 @@ static char *mkrun(int c, int n) { char *p = malloc((size_t) n + 1); memset(p, c
 static void build(int core)
 {
     static const char *base[] = { "a", "b", "snap", "pre", "alpha", "beta", "rc", "SNAP", "snapx",
-                                  "0", "1", "2", "10", "007", "2147483647", "2147483648", "4294967295", ".", "-", "_", "..", "\xae", "\xe9" };      /* two bytes above 0x7f: separators whose distance from an ASCII one exceeds 127 */
+                                  "0", "1", "2", "10", "007", "2147483647", "2147483648", "4294967295", ".", "-", "_", "..", "\xae", "\xe9", "\xe1", "\xe2", "\xb1" };      /* bytes above 0x7f: separators whose distance from an ASCII one exceeds 127, and 'a', 'b', '1' + 0x80 (a distance of exactly 128) */
     static const char *corefr[] = { "a", "snap", "pre", "beta", "rc", "0", "1", "10", "007", "2147483648", "4294967295", ".", "-", "b", "\xae" };
     NFR = 0;
     if (core) { for (unsigned i = 0; i < sizeof corefr / sizeof *corefr; i++) FR[NFR++] = corefr[i]; return; }
